@@ -223,9 +223,13 @@ class HexInt(Combinator[int]):
         if c == "-":
             if idx + 3 > len(data):
                 return None
+            if not _is_hex(data[idx + 1 : idx + 3]):
+                return None
             return 3, [_from_base16(data[idx + 1 : idx + 3])]
         elif c == "+":
             if idx + 4 > len(data):
+                return None
+            if not _is_hex(data[idx + 1 : idx + 4]):
                 return None
             return 4, [_from_base16(data[idx + 1 : idx + 4])]
         elif _is_hex(c):
